@@ -160,6 +160,49 @@ func sepDistribution(sf spg.SFFunction) (map[string]*big.Rat, bool) {
 	return res.Mass, true
 }
 
+// sepReference is the documented output distribution of a separator function built from a character
+// recipe: uniform over the valid strings; "" when the recipe yields nothing. With a requirement it is exact
+// only when the number of attempts is known (trials > 0, MaxFailRate = 1).
+func sepReference(sr spg.CharRecipe, trials int) (map[string]*big.Rat, bool) {
+	sem := oracle.CharSemOf(sr)
+	one := big.NewRat(1, 1)
+	if sr.Length < 1 || len(sem.Alphabet) == 0 {
+		return map[string]*big.Rat{"": one}, true
+	}
+	valid, ok := sem.EnumerateValid(200000)
+	if !ok {
+		return nil, false
+	}
+	total := sem.Total(sr.Length)
+	out := map[string]*big.Rat{}
+	if len(sem.ReqLive) == 0 {
+		each := new(big.Rat).SetFrac(big.NewInt(1), total)
+		for _, v := range valid {
+			out[v] = each
+		}
+		return out, true
+	}
+	if trials <= 0 || len(valid) == 0 || sem.Emptied > 0 {
+		return nil, false
+	}
+	// k attempts: P(v) = sum_{j<k} (1-p)^j / total ; P("") = (1-p)^k
+	p := new(big.Rat).SetFrac(big.NewInt(int64(len(valid))), total)
+	q := new(big.Rat).Sub(one, p)
+	geo, qj := new(big.Rat), big.NewRat(1, 1)
+	for j := 0; j < trials; j++ {
+		geo.Add(geo, qj)
+		qj = new(big.Rat).Mul(qj, q)
+	}
+	each := new(big.Rat).Mul(geo, new(big.Rat).SetFrac(big.NewInt(1), total))
+	for _, v := range valid {
+		out[v] = each
+	}
+	if qj.Sign() > 0 {
+		out[""] = qj
+	}
+	return out, true
+}
+
 // wlReference computes the documented output distribution of a wordlist recipe
 // (product of uniform word draws, the scheme's capitalisation law and
 // independent separator draws, pushed through the token rendering) as exact
@@ -199,7 +242,18 @@ func wlReference(w WLCase, b *Built) (map[string]*big.Rat, bool) {
 		} else {
 			sf = spg.NewSFFunction(w.sepRec)
 		}
-		d, ok := sepDistribution(sf)
+		_ = sf
+		// the reference distribution of a recipe-built separator comes from the recipe's documented meaning
+		// (uniform over the strings it allows), not from what the function is observed to do
+		sr := w.sepRec
+		if w.SepKind == "preset" {
+			if w.Preset == "SFNone" {
+				sr = spg.CharRecipe{}
+			} else {
+				sr, _ = presetRecipe(w.Preset)
+			}
+		}
+		d, ok := sepReference(sr, w.SepTrials)
 		if !ok {
 			return nil, false
 		}
@@ -331,10 +385,11 @@ func wlReference(w WLCase, b *Built) (map[string]*big.Rat, bool) {
 // exploreWL explores the tree of a built wordlist recipe. The separator log
 // and user-separator state are reset before every execution.
 func exploreWL(w WLCase, b *Built, lim explore.Limits, onLeaf func(GenOut, *tape.Tape, []string)) *explore.Result {
+	lim.Hostile = true
 	return explore.Run(lim, func(t *tape.Tape) explore.Outcome {
 		b2 := b.fresh(w)
 		out := runGen(*b2.Rec, t)
-		if !t.Cut && onLeaf != nil {
+		if !t.Cut && !t.Aux && onLeaf != nil {
 			onLeaf(out, t, b2.Log.Returns)
 		}
 		return explore.Outcome{Key: outcomeKey(out)}
